@@ -427,6 +427,10 @@ template <class S> struct SplineCmds {
       S &s = get(vm.next()); std::string pre = vm.next(); std::string how = vm.next();
       Mat gdC; VX gdT;
       if (how == "val") { gdC = s.getEnergyPartialGradByCoeffs(); gdT = s.getEnergyPartialGradByTimes(); }
+      else if (how == "refdirty") {  // caller's buffers already have the final size and hold unrelated (uninitialised) data
+        gdC.resize(s.getNumSegments() * NC, DIM); gdT.resize(s.getNumSegments());
+        s.getEnergyPartialGradByCoeffs(gdC); s.getEnergyPartialGradByTimes(gdT);
+      }
       else { s.getEnergyPartialGradByCoeffs(gdC); s.getEnergyPartialGradByTimes(gdT); }
       vm.iout(pre + ".Crows", gdC.rows()); vm.iout(pre + ".nT", gdT.size());
       vm.outMat(pre + ".C", gdC);
